@@ -216,6 +216,24 @@ def examine(wd, logdir):
                             "ovniemu reported success but the stream of thread %d (metadata file present, %d events on "
                             "disk) is not part of the emulation" % (tid_, len(evs_)))
                     break
+    if not accepted and os.path.isdir(final) and viol is None:
+        # the same streams gathered through symbolic links (per-node loom directories linked into one
+        # trace directory) are the same trace: what the emulator refuses directly it must refuse there too
+        gather = os.path.join(wd, "gathered")
+        shutil.rmtree(gather, ignore_errors=True)
+        os.makedirs(os.path.join(gather, "cfg"))
+        n = 0
+        for x in sorted(os.listdir(final)):
+            if x.startswith("loom."):
+                os.symlink(os.path.join(final, x), os.path.join(gather, x)); n += 1
+        if n:
+            r2 = emu.emu(plain, gather, timeout=60)
+            if emu.accepted(r2):
+                viol = ("emulator-accepts-through-links-what-it-refuses-directly",
+                        "ovniemu refuses the trace directory but reports success on a directory that links the same loom "
+                        "directories in")
+            sig.append(("emu-links", "ok" if emu.accepted(r2) else "fail"))
+        shutil.rmtree(gather, ignore_errors=True)
     if accepted and visible_lacking and viol is None:
         viol = ("emulator-accepts-trace-lacking-flushed-events",
                 "ovniemu reported success although visible streams %s lack flushed events" % visible_lacking)
